@@ -75,6 +75,8 @@ def run_case(ctx, p):
         if "trans_att" not in ds.coords or not np.array_equal(np.asarray(ds.trans_att.values, float), np.asarray(f.trans_att, float)):
             ctx.violation(f"trans_att-differs:{where}:{tag}", f"{where}: trans_att coordinate is not the splice list", p)
 
+    if f.ds.dts.sections is not None or f.ds.dts.matching_sections is not None:
+        ctx.violation(f"definition-without-calibration:{tag}", "a dataset that was never calibrated reports section definitions", p)
     reported(out, "calibrate")
     # what the accessor hands out is a fresh copy: editing it in place must not change what is reported afterwards
     got = out.dts.sections
@@ -136,7 +138,7 @@ def run_case(ctx, p):
 def gen(ctx):
     rng = ctx.rng("c17")
     out = []
-    for k in range(6 if ctx.quick else 60):
+    for k in range(16 if ctx.quick else 80):
         double = bool(k % 2)
         p = calib.random_params(rng, double, quick=True, nx=int(rng.integers(20, 30)), nt=2, nta=int(rng.integers(0, 3)), nmatch=int(rng.integers(0, 3)), noise=0.005,
                                 span=float(rng.choice([40.0, 100.0, 400.0])), var_mode="float")
